@@ -1,6 +1,6 @@
 """C08 -- Structured Append sequences reassemble to the original message."""
 import json
-import common, enc, gen, seq, sweep, impl
+import common, enc, gen, seq, sweep, impl, directed
 
 TOP = ['theories/Props/C08.v', 'theories/Tie/TieTables.v']
 RULE = ('contents of every mode (digits, alphanumeric, bytes, latin-1, Shift JIS kanji, multi-byte UTF-8 text, hanzi, ints) with lengths '
@@ -47,6 +47,27 @@ def run(ctx):
         if rng.random() < 0.5:
             c['boost_error'] = False
         cases.append(c)
+    # boundary-directed: chunk sizes around the per-symbol capacity with the 20-bit Structured Append header,
+    # by symbol_count (version search with the header) and by version (boosting with the header)
+    for v in ([1, 2, 3] if not ctx.thorough else [1, 2, 3, 5, 9, 10]):
+        for level in ('L', 'M', 'Q', 'H'):
+            for mode, kind in ((1, 'numeric'), (2, 'alnum'), (4, 'bytes')):
+                cap = gen.capacity(v, level)
+                m = None
+                for cnt in range(1, 3000):
+                    if gen.bits(mode, cnt, v) + 20 > cap:
+                        m = cnt - 1
+                        break
+                if not m:
+                    continue
+                for k in (2, 3):
+                    for d in (0, 1):
+                        n_chars = k * (m + d)
+                        content = gen.content_of(rng, mode, n_chars)
+                        cases.append({'content': content, 'symbol_count': k, 'error': level, 'boost_error': False, 'mask': 0})
+                        if d == 0 and level != 'H':
+                            # boosting with the header: content that fits `level` exactly must not be boosted beyond what fits
+                            cases.append({'content': content, 'symbol_count': k, 'error': 'L', 'boost_error': True, 'mask': 0})
     reqs = [seq.request(c) for c in cases]
     model = common.oracle_parallel(reqs, chunk=4)
     failures, corr, samples = [], [], []
@@ -77,7 +98,7 @@ def run(ctx):
             f = {'input': describe(c), 'observed': '%d symbols' % len(codes), 'expected': msg}
             # known finding D14 applies iff the implementation's output equals the model's (deviating) output and the failure is
             # a symbol whose data does not fit (decoder cannot read it / payload short)
-            if s == m and ('cannot be read' in msg or 'reassembled payload' in msg) and case_overflows(c, codes):
+            if s == m and c.get('version') is not None and c.get('symbol_count') is None and ('cannot be read' in msg or 'reassembled payload' in msg) and case_overflows(c, codes):
                 f['kf'] = 'kf_sa_chunk_overflow'
             failures.append(f)
     return {'failures': failures, 'correspondence_broken': ['encode_sequence: model and implementation differ on %d cases' % len(corr)] if corr else [],
